@@ -255,6 +255,8 @@ type c08Runner struct {
 	asOut   []c08AssignObs
 	rtProgs map[string]*parser.Program
 	rtVals  [][]string
+	rtMode  string // "-switch" writers: the OUTPUTMODE under test, assigned at run time ...
+	rtPrev  string // ... after a row was written in this other output mode
 	rtPos   int
 	rtRecs  [][]string
 }
@@ -311,7 +313,9 @@ func newC08Runner() *c08Runner {
 			r.rtPos++
 			return len(r.rtVals[r.rtPos-1])
 		},
-		"v": func(i int) string { return r.rtVals[r.rtPos-1][i-1] },
+		"v":      func(i int) string { return r.rtVals[r.rtPos-1][i-1] },
+		"rtmode": func() string { return r.rtMode },
+		"rtprev": func() string { return r.rtPrev },
 		"rtrec": func(nf int) {
 			r.rtRecs = append(r.rtRecs, make([]string, 0, nf))
 		},
@@ -863,6 +867,15 @@ var c08RTSrc = map[string]string{
 	// values -> $i = v rebuilds $0 in output mode; bare print writes it
 	"rebuild": `BEGIN { while ((n = nextlist()) > 0) { $0 = ""; for (i=1; i<=n; i++) $i = v(i)
 		print; printf "\003\n" } }`,
+	// the same two writers with the output mode assigned by the program, after another output mode was in
+	// force and used for a row (to a file, so that it is not part of the text that is read back)
+	"print-switch": `BEGIN { OUTPUTMODE = rtprev(); print "p q", "r,s\tt|u" > "/dev/null"; OUTPUTMODE = rtmode()
+	while ((n = nextlist()) > 0) { $0 = ""; for (i=1; i<=n; i++) $i = v(i)
+		if (n == 1) print $1; else if (n == 2) print $1, $2; else print $1, $2, $3
+		printf "\003\n" } }`,
+	"rebuild-switch": `BEGIN { OUTPUTMODE = rtprev(); $0 = "p q"; $2 = "r,s\tt|u"; print > "/dev/null"; OUTPUTMODE = rtmode()
+	while ((n = nextlist()) > 0) { $0 = ""; for (i=1; i<=n; i++) $i = v(i)
+		print; printf "\003\n" } }`,
 	// the documented conversion idiom: read in input mode, $1=$1, bare print in output mode
 	"convert": `{ $1 = $1; print }`,
 	"read":    `{ rtrec(NF); for (i=1; i<=NF; i++) rtfld($i) }`,
@@ -923,6 +936,17 @@ func (st *c08State) rtBatch(writer, mode, sep, sep2 string, lists [][]string) (b
 	r.rtVals, r.rtPos = lists, 0
 	m, sp := c08ModeOf(mode, sep)
 	cfg := &interp.Config{Funcs: r.funcs, OutputMode: m, CSVOutput: interp.CSVOutputConfig{Separator: sp}}
+	if strings.HasSuffix(writer, "-switch") {
+		cfg = &interp.Config{Funcs: r.funcs}
+		r.rtMode = mode
+		if sep != "" {
+			r.rtMode += " separator=" + sep
+		}
+		r.rtPrev = "csv"
+		if r.rtMode == "csv" {
+			r.rtPrev = "tsv"
+		}
+	}
 	res := awk.Exec(r.rtProgs[writer], cfg)
 	st.c.Eval(int64(len(lists)))
 	if res.Panic != "" || res.Err != nil {
@@ -1023,7 +1047,7 @@ func c08RunRT(st *c08State) {
 			}
 			enumStrings(alpha, n, func(s string) { vals = append(vals, s) })
 		}
-		writers := []string{"print", "rebuild"}
+		writers := []string{"print", "rebuild", "print-switch", "rebuild-switch"}
 		if rc.sep2 != "-" {
 			writers = []string{"print"}
 		}
@@ -1214,7 +1238,7 @@ func init() {
 		Rule: "bounded-exhaustive enumeration, simplest first: (read) every input string up to the length bound over a per-configuration alphabet " +
 			"{payload, separator, quote, LF, CR, comment char, space, multi-byte char} x BOM absent/present x every chunking (2^(bytes-1), BOM bytes included) x 2 EOF styles, " +
 			"for 11 (mode, separator, comment, header) configurations and 2 reading paths (pattern-action, getline; inputs of more than 11 bytes incl. BOM, possible only with several 2-byte characters, are left out); (assign) `$0=s` and split(s,a) for every such s that is at most one record; " +
-			"(files) header mode over all pairs of short files x BOM; (long) records of 65530..65538 bytes around the read-buffer size, whole and with one split point; (rt) every list of <=3 CR-free values over {a, sep, quote, LF, space} written by print $1..$n / $0 rebuild / `$1=$1` conversion and read back. " +
+			"(files) header mode over all pairs of short files x BOM; (long) records of 65530..65538 bytes around the read-buffer size, whole and with one split point; (rt) every list of <=3 CR-free values over {a, sep, quote, LF, space} written by print $1..$n / $0 rebuild / `$1=$1` conversion and read back, the first two also with the output mode assigned by the program after a row was written in another output mode. " +
 			"a state is one (configuration, input) or one value list, a transition one delivery / one write-read cycle; distinct = distinct observed (NR, NF, $0, fields, FIELDS, @name) sequences",
 		Assumptions: []string{
 			"oracle for fields: Go's encoding/csv Reader (LazyQuotes, FieldsPerRecord=-1, same Comma/Comment) on the BOM-free input is the reference RFC 4180 reader with lenient quotes",
